@@ -107,6 +107,8 @@ def check_plan(plan):
             out.append(({'cond': 'numbering', 'step': type(st).__name__}, {'index': i, 'step_num': repr(st.step_num)}))
         refs, subs = own_refs(st)
         all_refs = list(refs)
+        if type(st).__name__ in ('InsertToTable', 'SaveToTable') and getattr(st, 'dataframe', None) is None and getattr(st, 'query', None) is None:
+            out.append(({'cond': 'write-step-without-input', 'step': type(st).__name__}, {'index': i, 'step': repr(st)[:200]}))
         bad = [r for r in refs if not (isinstance(r, int) and not isinstance(r, bool) and 0 <= r < i)]
         if bad:
             b0 = bad[0]
